@@ -37,7 +37,7 @@ func corpusSteps(n *Node) []Step {
 		return []Step{Run("init")}
 	}
 	steps := []Step{Run("add", "a"), Run("add", "d"), Run("add", "."), Run("rm", "a"), Run("commit", "-m", "m"), Run("branch", "b2"), Run("branch", "-r", "t"), Run("branch", "-d", "b"),
-		Run("switch", "b"), Run("switch", "-c", "c"), Run("reset", "--soft", "HEAD@{1}"), Run("reset", "--mixed", "HEAD@{1}"), Run("reset", "--hard", "HEAD@{1}"),
+		Run("switch", "b"), Run("switch", "main"), Run("switch", "-c", "c"), Run("reset", "--soft", "HEAD@{1}"), Run("reset", "--mixed", "HEAD@{1}"), Run("reset", "--hard", "HEAD@{1}"),
 		Run("restore", "a"), Run("restore", "--staged", "a"), Run("rm", "d"), Run("restore", "d"), Run("restore", "--staged", "d"), Run("config", "user.name", "X Y"), Run("config", "--global", "user.name", "G"), Run("write-tree"), Write("a", fmt.Sprintf("edit %d\n", len(a.Objects)))}
 	if tip := a.Tip(); tip != "" {
 		steps = append(steps, Run("update-ref", "refs/heads/b", tip))
@@ -60,7 +60,64 @@ func corpusSeeds() []Seed {
 }
 
 type c15Counters struct {
-	crashRuns, crashStates, points int64
+	crashRuns, crashStates, points, followUps int64
+}
+
+var followSeen sync.Map
+
+// newTmp reports whether state b holds a leftover temporary file that a does not.
+func newTmp(a, b *State) bool {
+	for p := range b.Files {
+		if strings.HasSuffix(p, ".tmp") || strings.Contains(p, ".tmp/") || strings.HasPrefix(p, ".goit.init") {
+			if _, ok := a.Files[p]; !ok {
+				return true
+			}
+		}
+	}
+	return false
+}
+
+// followUps judges what the next command does on a disk left by an interrupted or
+// failed command: the same command again (the user's retry) and, where the
+// interruption left temporary files behind, a few commands that write the same places.
+// Each result must satisfy the structural invariants, keep the stored objects intact
+// and must not crash. add(oracle, detail) records a violation.
+func followUps(c *Ctx, pre *State, pa *Abs, left *State, st Step, add func(oracle, f string, args ...interface{})) int {
+	if left.Key() == pre.Key() {
+		return 0
+	}
+	steps := []Step{st}
+	if newTmp(pre, left) {
+		steps = append(steps, Run("switch", "b"), Run("switch", "-c", "c"), Run("add", "."), Run("commit", "-m", "m"))
+	}
+	n := 0
+	for _, fu := range steps {
+		if _, dup := followSeen.LoadOrStore(left.Key()+"|"+fu.String(), true); dup {
+			continue
+		}
+		n++
+		r, after := c.Probe(left, nil, fu.Args...)
+		if r.Panicked() {
+			add("follow-up-no-crash", "then `%s` crashes", fu)
+			continue
+		}
+		aa := after.Abs()
+		seen := map[string]bool{}
+		for _, p := range aa.Fsck() {
+			if !seen[p.Class] {
+				seen[p.Class] = true
+				add("follow-up-fsck:"+p.Class, "then `%s` (exit %d) leaves: %s", fu, r.Exit, p.Msg)
+			}
+		}
+		for name, o := range pa.Objects {
+			po, ok := aa.Objects[name]
+			if o.Err == nil && (!ok || po.Err != nil || po.Kind != o.Kind || string(po.Body) != string(o.Body)) {
+				add("follow-up-objects-intact", "then `%s` (exit %d) damages or loses object %s", fu, r.Exit, name)
+				break
+			}
+		}
+	}
+	return n
 }
 
 var c15n c15Counters
@@ -164,6 +221,8 @@ func c15Trans(c *Ctx, pre *Node, st Step, res *Result, post *State) ([]Violation
 			add("branch-old-or-new", "branch %q holds %q; before the command %q, after the uninterrupted command %q", n, v, old, nw)
 			break
 		}
+		// (iv) the next command on the post-crash disk
+		atomic.AddInt64(&c15n.followUps, int64(followUps(c, pre.State, pa, crashed, st, add)))
 	}
 	return vs, true
 }
@@ -178,10 +237,11 @@ func checkC15(e *RunEnv) *CheckResult {
 	res := runSpec(e, spec, func(x *Explorer, cov map[string]interface{}) {
 		cov["crash_points"] = int(c15n.points)
 		cov["crash_runs"] = int(c15n.crashRuns)
+		cov["follow_up_runs"] = int(c15n.followUps)
 		cov["distinct_post_crash_states"] = int(c15n.crashStates)
 		cov["evaluations"] = int(c15n.crashRuns) + int(x.Probes)
 		cov["distinct_nontrivial"] = int(c15n.crashStates)
-		cov["rule"] = "corpus = every transition of a BFS (depth bound) over one representative of each modifying command from six seed states; for each transition the operation trace is recorded through the file-system seam and the command is re-run once per modifying operation point with a kill immediately before that point; each post-crash disk is judged by the recovery suite (loaders, read-only commands, independent fsck, branch old-or-new); distinct_nontrivial = distinct post-crash disk states"
+		cov["rule"] = "corpus = every transition of a BFS (depth bound) over one representative of each modifying command from six seed states; for each transition the operation trace is recorded through the file-system seam and the command is re-run once per modifying operation point with a kill immediately before that point; each post-crash disk is judged by the recovery suite (loaders, read-only commands, independent fsck, branch old-or-new) and by the next command run on it (the same command again; where temporary files were left behind also switch, switch -c, add ., commit), whose result must satisfy the same structural invariants; distinct_nontrivial = distinct post-crash disk states"
 		var kinds []string
 		for k, n := range x.Outcomes {
 			kinds = append(kinds, fmt.Sprintf("%s=%d", k, n))
